@@ -1,15 +1,18 @@
 import Vflow.Proofs.SflowSpec
-import Vflow.Proofs.HeaderSpec
+import Vflow.Proofs.HeaderBad
 /-!
 # The datagram round trip with raw-header records given by an abstract header
 
-`ADatagram'` is `ADatagram` except that a raw packet header record is `(frame length, stripped, abstract
-header, trailing payload)` instead of octets plus what they dissect to.  `lower` maps it to the octet
-form — header protocol `protoOf h`, sampled octets `encodeHeader h ++ payload`, expected packet
-`expectedPacket h payload` — so that `encodeSflow' d = encodeSflow d.lower` is the same XDR encoder
-(length word, the four header words, the octets, zero padding to a multiple of four) and
-`expected' d = expected d.lower`.  Well-formedness (`WF'`) is stated on the abstract side only; the
-dissection hypothesis of the octet form is discharged by `dissect_encodeHeader`.
+`ADatagram'` is `ADatagram` except that a raw packet header record is either `(frame length, stripped,
+abstract header, trailing payload)` — a header the packet structs can represent — or `(frame length,
+stripped, abstract undissectable header)` (`ABad`: cut short at any layer, not IP, an IP protocol without a
+struct, another header protocol) instead of bare octets.  `lower` maps both to the octet form — header
+protocol, sampled octets — so that `encodeSflow' d = encodeSflow d.lower` is the same XDR encoder (length
+word, the four header words, the octets, zero padding to a multiple of four).  The expected datagram
+`expected' d` is written on the abstract side alone, without the dissector: `expectedPacket h payload`
+for the first form, *no entry* for the second, every other record, sample and field as before;
+`expected_lower` shows that it is what the octet form dissects to (`dissect_encodeHeader`, `dissect_bad`).
+Well-formedness (`WF'`) is stated on the abstract side only.
 -/
 namespace Vflow.Sflow
 open Vflow Vflow.Packet
@@ -17,6 +20,8 @@ open Vflow Vflow.Packet
 inductive AFlowRec' where
   /-- raw packet header: frame length, stripped, the abstract sampled header and the payload octets after it -/
   | raw (frameLen stripped : Nat) (h : AHeader) (payload : Bytes)
+  /-- raw packet header whose sampled octets have no breakdown: frame length, stripped, the abstract undissectable header -/
+  | rawBad (frameLen stripped : Nat) (b : ABad)
   | sw (s : ExtSwitch)
   | rtr (r : ExtRouter)
   | unknown (fmt : Nat) (body : Bytes)
@@ -34,7 +39,8 @@ structure ADatagram' where
   samples : List ASample'
 
 def AFlowRec'.lower : AFlowRec' → AFlowRec
-  | .raw fl st h payload => .raw (protoOf h) fl st (encodeHeader h ++ payload) (expectedPacket h payload)
+  | .raw fl st h payload => .raw (protoOf h) fl st (encodeHeader h ++ payload)
+  | .rawBad fl st b => .raw b.proto fl st b.octets
   | .sw s => .sw s
   | .rtr r => .rtr r
   | .unknown fmt body => .unknown fmt body
@@ -52,8 +58,26 @@ def ADatagram'.lower (d : ADatagram') : ADatagram :=
 /-- the sFlow v5 wire encoding of the abstract datagram -/
 def encodeSflow' (d : ADatagram') : Bytes := encodeSflow d.lower
 
-/-- the decoded datagram it stands for -/
-def expected' (d : ADatagram') : Datagram := expected d.lower
+/-- what a flow record contributes to `Records`, on the abstract side: the expected packet of a
+representable header, nothing for an undissectable one or a skipped record -/
+def expFlowRec' : AFlowRec' → Option FlowRec
+  | .raw _ _ h payload => some (.raw (expectedPacket h payload))
+  | .rawBad _ _ _ => none
+  | .sw s => some (.sw s)
+  | .rtr r => some (.rtr r)
+  | .unknown _ _ => none
+
+def expSample' : ASample' → Option Sample
+  | .flow seq ty idx rate pool drops inp out recs =>
+    some (.flow ⟨seq, ty, idx, rate, pool, drops, inp, out, recs.length, FlowRecs.ofList (recs.map expFlowRec')⟩)
+  | .counter seq ty idx recs =>
+    some (.counter ⟨seq, ty, idx, recs.length, CounterRecs.ofList (recs.map expCounterRec)⟩)
+  | .unknown _ _ => none
+
+/-- the decoded datagram it stands for (no reference to the dissector) -/
+def expected' (d : ADatagram') : Datagram :=
+  mkDatagram ⟨5, if d.agent.length = 16 then 2 else 1, d.agent, d.subID, d.seqNo, d.upTime, d.samples.length⟩
+    (d.samples.map expSample')
 
 /-- what a raw-header record looks like on the wire: format 1, record length, header protocol, frame
 length, stripped, header length, the encoded header followed by the payload, XDR padding -/
@@ -68,9 +92,12 @@ theorem encFlowRec_raw (fl st : Nat) (h : AHeader) (payload : Bytes) :
 def AFlowRec'.WF : AFlowRec' → Prop
   | .raw fl st h payload =>
     fl < 256 ^ 4 ∧ st < 256 ^ 4 ∧ wfHeader h ∧ (encodeHeader h ++ payload).length ≤ 1500
+  | .rawBad fl st b =>
+    fl < 256 ^ 4 ∧ st < 256 ^ 4 ∧ b.WF ∧ b.proto < 256 ^ 4 ∧ b.octets.length ≤ 1500
   | .sw s => Fits [4, 4, 4, 4] [s.srcVlan, s.srcPriority, s.dstVlan, s.dstPriority]
   | .rtr r => (r.nextHop.length = 4 ∨ r.nextHop.length = 16) ∧ Fits [4, 4] [r.srcMask, r.dstMask]
-  | .unknown fmt body => fmt ≠ 1 ∧ fmt ≠ 1001 ∧ fmt ≠ 1002 ∧ fmt < 256 ^ 4 ∧ body.length < 256 ^ 4
+  | .unknown fmt body => fmt ≠ 1 ∧ fmt ≠ 1001 ∧ (fmt = 1002 → body.length ≠ 16 ∧ body.length ≠ 28) ∧
+      fmt < 256 ^ 4 ∧ body.length < 256 ^ 4
 
 def ASample'.WF : ASample' → Prop
   | .flow seq ty idx rate pool drops inp out recs =>
@@ -95,10 +122,10 @@ theorem AFlowRec'.lower_WF (r : AFlowRec') (hwf : r.WF) : r.lower.WF := by
   cases r with
   | raw fl st h payload =>
     obtain ⟨h1, h2, h3, h4⟩ := hwf
-    have hpos : 0 < (encodeHeader h ++ payload).length := by
-      have := encodeHeader_length_pos h
-      rw [List.length_append]; omega
-    exact ⟨⟨protoOf_lt h, h1, h2, by omega, trivial⟩, hpos, h4, dissect_encodeHeader h payload h3⟩
+    exact ⟨⟨protoOf_lt h, h1, h2, by omega, trivial⟩, h4⟩
+  | rawBad fl st b =>
+    obtain ⟨h1, h2, _, h4, h5⟩ := hwf
+    exact ⟨⟨h4, h1, h2, by omega, trivial⟩, h5⟩
   | sw s => exact hwf
   | rtr r => exact hwf
   | unknown fmt body => exact hwf
@@ -121,9 +148,46 @@ theorem ADatagram'.lower_WF (d : ADatagram') (hwf : d.WF) : d.lower.WF := by
   obtain ⟨s', hs', rfl⟩ := List.mem_map.mp hs
   exact s'.lower_WF (h3 s' hs')
 
+/-! ## the abstract expectation is what the octet form dissects to -/
+
+/-- a representable header contributes its expected packet, an undissectable one nothing -/
+theorem expFlowRec_lower (r : AFlowRec') (hwf : r.WF) : expFlowRec r.lower = expFlowRec' r := by
+  cases r with
+  | raw fl st h payload =>
+    simp only [AFlowRec'.lower, expFlowRec, expFlowRec', dissected_ok (dissect_encodeHeader h payload hwf.2.2.1),
+      Option.map_some]
+  | rawBad fl st b =>
+    obtain ⟨e, he⟩ := dissect_bad b hwf.2.2.1
+    simp only [AFlowRec'.lower, expFlowRec, expFlowRec', dissected_err he, Option.map_none]
+  | sw s => rfl
+  | rtr r => rfl
+  | unknown fmt body => rfl
+
+theorem expSample_lower (s : ASample') (hwf : s.WF) : expSample s.lower = expSample' s := by
+  cases s with
+  | flow seq ty idx rate pool drops inp out recs =>
+    have hmap : (recs.map AFlowRec'.lower).map expFlowRec = recs.map expFlowRec' := by
+      rw [List.map_map]
+      exact List.map_congr_left (fun r hr => expFlowRec_lower r (hwf.2.2.2.1 r hr))
+    simp only [ASample'.lower, expSample, expSample', hmap, List.length_map]
+  | counter seq ty idx recs => rfl
+  | unknown t body => rfl
+
+theorem expected_lower (d : ADatagram') (hwf : d.WF) : expected d.lower = expected' d := by
+  have hmap : (d.samples.map ASample'.lower).map expSample = d.samples.map expSample' := by
+    rw [List.map_map]
+    exact List.map_congr_left (fun s hs => expSample_lower s (hwf.2.2 s hs))
+  simp only [expected, expected', ADatagram'.lower, hmap, List.length_map]
+  rfl
+
 /-- **datagram round trip, abstract headers, any filter** -/
 theorem decode_enc' (f : List Nat) (d : ADatagram') (hwf : d.WF) :
-    decode f (encodeSflow' d) = .ok (dropTypes f (expected' d)) :=
-  decode_enc f d.lower (d.lower_WF hwf)
+    decode f (encodeSflow' d) = .ok (dropTypes f (expected' d)) := by
+  rw [← expected_lower d hwf]
+  exact decode_enc f d.lower (d.lower_WF hwf)
+
+/-- a record without an entry changes nothing in `Records`: the map built from the records around it -/
+theorem ofList_skip (a b : List (Option FlowRec)) : FlowRecs.ofList (a ++ none :: b) = FlowRecs.ofList (a ++ b) := by
+  simp [FlowRecs.ofList, List.foldl_append, FlowRecs.put]
 
 end Vflow.Sflow
